@@ -71,6 +71,9 @@ MInf == K(TNum, NInf)
 Extra == CASE F.name = "range" -> {<<Inf, MInf, MInf>>, <<MInf, Inf, Inf>>, <<Inf, Inf>>, <<NumV(0), Inf>>, <<MInf>>, <<NumV(0), NumV(4), MInf>>, <<Inf, NumV(0), NumV(-4)>>}
            [] F.name = "format" -> {<<S(<<"%", "[", "1", "8", "4", "4", "6", "7", "4", "4", "0", "7", "3", "7", "0", "9", "5", "5", "1", "6", "1", "5", "]", "v">>), NumV(4)>>,
                                     <<S(<<"%", "[", "4", "2", "9", "4", "9", "6", "7", "2", "9", "6", "]", "v">>), NumV(4)>>, <<S(<<"%", "9", "9", "9", "9", "9", "9", "9", "9", "9", "9", "9", "9", "9", "9", "9", "9", "9", "9", "9", "9", "d">>), NumV(4)>>}
+           [] F.name = "concat" -> {<<SeqV(TList(TStr), <<>>), SeqV(TList(TNum), <<NumV(4)>>)>>, <<SeqV(TList(TNum), <<NumV(4)>>), SeqV(TList(TStr), <<>>)>>,
+                                    <<SeqV(TList(TBool), <<>>), SeqV(TList(TStr), <<S(<<"a">>)>>), SeqV(TList(TNum), <<>>)>>, <<SeqV(TList(TStr), <<>>), SeqV(TList(TNum), <<>>)>>,
+                                    <<SeqV(TList(TStr), <<S(<<"a">>)>>), SeqV(TList(TNum), <<NumV(4)>>)>>}
            [] F.name = "formatlist" -> {<<S(<<"%", "[", "1", "8", "4", "4", "6", "7", "4", "4", "0", "7", "3", "7", "0", "9", "5", "5", "1", "6", "1", "5", "]", "v">>), NumV(4)>>}
            [] OTHER -> {}
 Src == IF Mode = "ref" THEN BaseLists ELSE IF Mode = "call" THEN Extra \cup BaseLists \cup UNION {Injected(a) : a \in InjBase} \cup UNION {NestedUnk(a) : a \in BaseLists} ELSE WBase
